@@ -431,7 +431,7 @@ def semantic_mutants():
         # operands of `#` that are not character classes
         for i, t in enumerate(toks):
             if t == "#":
-                for bad in ('"ab"', "( 'a' * )", "( 'a' 'b' )", "$", "( 'a' + )", "( 'a' ? )", '""'):
+                for bad in ('"ab"', "( 'a' * )", "( 'a' 'b' )", "$", "( 'a' + )", "( 'a' ? )", '""', '"q"', '( "q" )', '"é"'):
                     # replace the right operand (one token or a bracket group)
                     j = i + 1
                     if toks[j] == "[":
@@ -441,7 +441,7 @@ def semantic_mutants():
                     else:
                         k = j
                     out.append((f"{name}: right operand of # at token {i} replaced by {bad}", render(toks[:j] + bad.split(" ") + toks[k + 1:]), "diff-operand"))
-                for bad in ('"ab"', "( 'a' * )", "( 'a' 'b' )"):
+                for bad in ('"ab"', "( 'a' * )", "( 'a' 'b' )", '"q"', '""'):
                     j = i - 1
                     if toks[j] == "]":
                         k = max(x for x in range(j) if toks[x] == "[")
